@@ -21,5 +21,13 @@ def jobs(tier):
         tag = 'io' if inorder else 'ooo'
         J.append(kjob('sem_1w1s_%s' % tag, SRC, 2, 4, ['INORDER=%d' % inorder, 'NSIG=1'], desc='1 waiter, 1 signaller, %s' % tag, timeout=1200, unwind=3, mem_gb=16))
     # (1 waiter + signaller + interrupter, and 2 waiters + signaller, exist in the harness but ran out of memory at 16-20 GB on Layer B: not registered)
+    J.append(kjob('sem_2w_ghost_io', SRC, 2, 4, ['INORDER=1', 'NSIG=1', 'GHOST_WAITER'], kn=3, desc='1 running waiter + 1 constructed sleeping waiter (queued behind it), 1 signaller that may take a token itself, in-order', timeout=1500, unwind=4, mem_gb=20))
+    # (2 queued waiters + signaller on Layer B: SAT out of memory at 32 GB even with fixed demands; the signal step below covers the 2-waiter resume rules sequentially)
     for j in J: j.cbmc += ['-DVERIF_STUCK_IS_LEGAL']
+    for inorder in (1, 0):
+        J.append(Job('signal_step_%s' % ('io' if inorder else 'ooo'), 'C02/h_step.cpp', 'harness_signal_step', defines=['INORDER=%d' % inorder], clang=_c01.KCLANG,
+                     ir2c=['--asm', 'rol $$1, $0=verif_rol1', '--map', r'^@_ZN6photonL26prelocked_thread_interruptEPNS_6threadEi$=K_prelocked_interrupt'], shims=['libc.c', 'tid.c'],
+                     cbmc=['-DVERIF_SPIN_IS_DEADLOCK'], unwind=4, timeout=900, mem_gb=8, kf='C02-ooo-scan-self-deadlock' if not inorder else None,
+                     desc='one real signal(n) from every queue state of <= 2 sleeping waiters (demands 1..4, count 0..3), %s resume' % ('in-order' if inorder else 'out-of-order'),
+                     bounds='<= 2 queued waiters, demands 1..4, count 0..3, signal 1..3; one step, sequential'))
     return J
